@@ -52,6 +52,15 @@ func lemma_prefixPreserved(r *Rule, s string) {
 //@   props C20
 //@   requires spec_wellFormed(r)
 
+//@ func Rule.Init
+//@   props C20
+//@   requires r != nil
+//@   requires (forall i int :: 0 <= i && i < len(r.Irregular) ==> r.Irregular[i] != nil) && (forall i int :: 0 <= i && i < len(r.Rules) ==> r.Rules[i] != nil)
+//@   assigns r.uninflected, r.compiledUninflected, r.irregularMap, r.compiledIrregular, r.compiledRules
+//@   loop 1 invariant r != nil && r.irregularMap != nil && len(vIrregulars) == len(r.Irregular)
+//@   loop 2 invariant r != nil && len(r.compiledRules) == len(r.Rules)
+//@   note frame: Init builds the rule tables and touches NOTHING else - in particular it leaves the memoisation cache empty (the trusted Rule.Inflected relies on every cached entry having been computed by inflected)
+
 //@ func Rule.Inflected
 //@   props C20
 //@   trusted
